@@ -298,6 +298,15 @@ theorem exS_reparam :
     ∧ exSBa.basis 0 = openBasis 2 (clampedU 0 1 [1/2]) (clampedM 2 [0]) := by
   refine ⟨?_, ?_, ?_⟩ <;> decide +kernel
 
+/-- Direction `v` of the two example surfaces: already on `[0,1]`, orders 2 and 3, no interior knots. -/
+theorem exS_reparam_v :
+    Obj.stageReparam (exSA, exSB) 1 = .ok (exSA, exSB)
+    ∧ exSA.basis 1 = openBasis 2 (clampedU 0 1 []) (clampedM 2 [])
+    ∧ exSB.basis 1 = openBasis 3 (clampedU 0 1 []) (clampedM 3 [])
+    ∧ exSA.basis 0 = openBasis 2 (clampedU 0 2 [1]) (clampedM 2 [1])
+    ∧ exSA.bases.toList = [openBasis 2 (clampedU 0 2 [1]) (clampedM 2 [1]), exSu1] := by
+  refine ⟨?_, ?_, ?_, ?_, ?_⟩ <;> decide +kernel
+
 end C12
 
 end Splipy
